@@ -100,6 +100,49 @@ example : (run init [[6, 2, 1], [2, 0xfd]]).1 = [[6, 2, 1, 2]] := by
     (by decide)]
   decide
 
+/-- **C11, reconnection of a permanent face.**  Every connection `c = (blocks, chunks, later)` carries
+    the first `chunks` of an admissible block stream and then fails (anywhere — `later` never arrives,
+    the connection may end in the middle of a block); the face reconnects and the peer starts a new
+    block stream.  The link service is handed, connection after connection, exactly the blocks that
+    were completely received on that connection: the partly received block of a failed connection is
+    gone with it and never contaminates the next connection's stream. -/
+theorem reconnect_fresh_buffer (conns : List (List Bytes × List Bytes × List Bytes))
+    (h : ∀ c ∈ conns, Admissible c.1 ∧ (c.2.1 ++ c.2.2).flatten = c.1.flatten) :
+    runConns (conns.map (·.2.1)) =
+      (conns.map fun c => completeBlocks c.1 c.2.1.flatten.length).flatten := by
+  induction conns with
+  | nil => rfl
+  | cons c rest ih =>
+    have hc := h c (List.mem_cons_self ..)
+    have hr : ∀ c' ∈ rest, Admissible c'.1 ∧ (c'.2.1 ++ c'.2.2).flatten = c'.1.flatten :=
+      fun c' hc' => h c' (List.mem_cons_of_mem _ hc')
+    simp only [List.map_cons, runConns, List.flatten_cons]
+    rw [stream_prompt c.1 c.2.1 c.2.2 hc.1 hc.2, ih hr]
+
+/-- non-vacuity: the first connection fails after block 1 and two bytes of block 2, the second
+    connection carries one block -/
+example : runConns [[[6, 2, 1], [2, 0xfd, 3]], [[6, 2], [1, 2]]] = [[6, 2, 1, 2], [6, 2, 1, 2]] := by
+  have hA : Admissible [[6, 2, 1, 2], [0xfd, 3, 0x20, 1, 7]] := by
+    intro b hb
+    simp at hb
+    rcases hb with rfl | rfl
+    · exact ⟨⟨6, [1, 2], by decide, by decide⟩, by decide⟩
+    · exact ⟨⟨0x320, [7], by decide, by decide⟩, by decide⟩
+  have hB : Admissible [[6, 2, 1, 2]] := by
+    intro b hb
+    simp at hb; subst hb
+    exact ⟨⟨6, [1, 2], by decide, by decide⟩, by decide⟩
+  have := reconnect_fresh_buffer
+    [([[6, 2, 1, 2], [0xfd, 3, 0x20, 1, 7]], [[6, 2, 1], [2, 0xfd, 3]], [[0x20, 1, 7]]),
+     ([[6, 2, 1, 2]], [[6, 2], [1, 2]], [])]
+    (by
+      intro c hc
+      simp at hc
+      rcases hc with rfl | rfl
+      · exact ⟨hA, by decide⟩
+      · exact ⟨hB, by decide⟩)
+  simpa [completeBlocks] using this
+
 /-- **C11, buffer space.**  Between two reads of an admissible stream nothing is parked in front of
     the unread bytes and fewer than `MaxNDNPacketSize` bytes are unread, so every `Read` is offered
     more than `len(recvBuf) - MaxNDNPacketSize` (= 31 packets) of space: the reader never starves,
